@@ -388,6 +388,10 @@ func ReadFromTTML(i io.Reader) (o *Subtitles, err error) {
 	// Loop through subtitles
 	for _, ts := range ttml.Subtitles {
 		// Init item
+		if ts.Begin == nil || ts.End == nil {
+			err = fmt.Errorf("astisub: subtitle is missing its begin or end attribute")
+			return
+		}
 		ts.Begin.framerate = ttml.Framerate
 		ts.Begin.tickrate = ttml.Tickrate
 		ts.End.framerate = ttml.Framerate
